@@ -39,7 +39,7 @@ m['detected_by']={'check':prop+' quick','exit':ex,'violations':viol,'obligations
 m['last_selftest_exit']=ex
 json.dump(m,open(p,'w'),indent=1)
 PY
-  if [ $ex -eq 1 ] && [ $viol -gt 0 ]; then echo "$id: DETECTED ($viol)"; else echo "$id: MISSED (exit $ex)"; rc=1; fi
+  if [ $ex -eq 1 ] && [ $viol -gt 0 ]; then echo "$id: DETECTED ($viol)"; else echo "$id: MISSED (exit $ex)"; echo "$out" | tail -5 > /var/tmp/selftest_miss_$id.log; rc=1; fi
 done
 # unchanged tree
 for f in props/*.json; do
